@@ -421,9 +421,18 @@ func TestC11_Random(t *testing.T) {
 // TestC11_ErrorClass: malformed escapes, unpaired surrogates and numbers
 // outside the double range are compile errors, never silently altered values.
 func TestC11_ErrorClass(t *testing.T) {
-	rec := begin(t, "C11", "generated error class: strings with a malformed escape (\\x, \\u + 0..3 hex digits, \\u with a non-hex digit, lone backslash), an unpaired high or low surrogate escape (alone, followed by text, followed by a non-surrogate escape, reversed pair), numbers outside the double range (1e309, -1e400, 2e308), each as a top-level text and nested in an array/object, with surrounding valid units; all must be compile errors; distinct by text")
+	rec := begin(t, "C11", "generated error class: strings with a malformed escape (\\x, \\u + 0..3 hex digits, \\u with a sign, separator or letter beyond f in any of the four positions, lone backslash), an unpaired high or low surrogate escape (alone, followed by text, followed by a non-surrogate escape, reversed pair), numbers outside the double range (1e309, -1e400, 2e308), each as a top-level text and nested in an array/object, with surrounding valid units; all must be compile errors; distinct by text")
 	defer finish(t, rec)
 	bad := []string{`\x`, `\u`, `\u1`, `\u12`, `\u123`, `\u12G4`, `\uZZZZ`, `\a`, `\0`, `\U0041`, `\ `, `\ud800`, `\udbff`, `\udc00`, `\udfff`, `\ud800a`, `\ud800\n`, `\ud800A`, `\udc00\ud800`, `\ud83d\ud83d`, `\ud800\udbff`}
+	// \u followed by four characters of which one is not a hexadecimal digit:
+	// every position x signs, separators and letters beyond f
+	for pos := 0; pos < 4; pos++ {
+		for _, ch := range []string{"+", "-", "_", " ", "x", "X", "g", "G", ".", ",", ":"} {
+			hex := []string{"0", "0", "4", "1"}
+			hex[pos] = ch
+			bad = append(bad, `\u`+strings.Join(hex, ""))
+		}
+	}
 	pre := []string{"", "a", `\n`, "é", `😀`}
 	n := 0
 	for _, b := range bad {
